@@ -93,9 +93,20 @@ SweepForms(c) == << Cp("-type ") \o <<c>>, Cp("-type f,") \o <<c>>, Cp("-type ")
                     Cp("-mtime 1") \o <<c>>, Cp("-amin ") \o <<c>> \o Cp("1"), Cp("-uid ") \o <<c>> \o Cp("5"), Cp("-uid 5") \o <<c>>,
                     Cp("-links +") \o <<c>>, Cp("-threads ") \o <<c>>, Cp("-name ") \o <<c>>, Cp("-") \o <<c>>, Cp("-print") \o <<c>>,
                     Cp("-a") \o <<c>>, Cp("-o") \o <<c>>, <<c>> \o Cp("-true"), Cp("-true ") \o <<c>> >>
+\* characters that some classification calls "white space" or "invisible" but that are NOT blanks of the
+\* expression language (VT, FF, NEL, no-break space, the Unicode spaces and separators, BOM, soft hyphen,
+\* zero-width space) and two ordinary non-ASCII characters: inside and around bare words
+WideChars == {11, 12, 28, 31, 133, 160, 173, 233, 5760, 8192, 8199, 8202, 8203, 8232, 8233, 8239, 8287, 12288, 65279, 128512}
+WideForms(c) == << Cp("-name a") \o <<c>> \o Cp("b"), Cp("-name ") \o <<c>>, Cp("-iname ") \o <<c>> \o Cp("x -print"), Cp("-path x") \o <<c>>,
+                   Cp("-fprint o") \o <<c>> \o Cp("b"), Cp("-printf %p") \o <<c>> \o Cp("%s\\n"), Cp("-xattr-match n") \o <<c>> \o Cp(" v") \o <<c>>,
+                   Cp("-pool ") \o <<c>> \o Cp("p"), Cp("-true") \o <<c>>, Cp("-uid 5") \o <<c>>, <<c>>, Cp("-name a ") \o <<c>> \o Cp(" -print"),
+                   Cp("-true ") \o <<c>> \o Cp("-false"), Cp("( -name a") \o <<c>> \o Cp(" )") >>
 EmitSweep ==
   vSeq = <<>> =>
-    \A c \in SweepChars : \A k \in 1..Len(SweepForms(c)) :
-      LET txt == SweepForms(c)[k] IN
-      PrintT(ToJson([i |-> txt, e |-> ParseText(txt), tag |-> "C05"]))
+    /\ \A c \in SweepChars : \A k \in 1..Len(SweepForms(c)) :
+         LET txt == SweepForms(c)[k] IN
+         PrintT(ToJson([i |-> txt, e |-> ParseText(txt), tag |-> "C05"]))
+    /\ \A c \in WideChars : \A k \in 1..Len(WideForms(c)) :
+         LET txt == WideForms(c)[k] IN
+         PrintT(ToJson([i |-> txt, e |-> ParseText(txt), tag |-> "C05"]))
 =============================================================================
